@@ -23,13 +23,14 @@ COQ_HEADER = ('From Coq Require Import List NArith Bool.\nFrom FB Require Import
 
 class Inst:
     """one file system instance over its own copy of the tree"""
-    def __init__(self, bindir, root, seal, no_open):
-        self.root, self.seal, self.no_open = root, seal, no_open
+    def __init__(self, bindir, root, seal, no_open, kind='passthrough'):
+        self.root, self.seal, self.no_open, self.kind = root, seal, no_open, kind
         shutil.rmtree(root, ignore_errors=True); os.makedirs(root)
         for i, sz in enumerate(SIZES0):
             with open(os.path.join(root, 'f%d' % i), 'wb') as f: f.truncate(sz)
         self.cl = FuseClient(os.path.join(bindir, 'seal'))
-        self.cl.new('passthrough root=%s seal_size=%d no_open=%d cache_always=%d' % (root, seal, no_open, no_open))
+        if kind == 'passthrough': self.cl.new('passthrough root=%s seal_size=%d no_open=%d cache_always=%d' % (root, seal, no_open, no_open))
+        else: self.cl.new('vfs seal_size=%d no_open=%d cache_always=%d mount=/=%s' % (seal, no_open, no_open, root))
         neg = self.cl.init(FUSE_ATOMIC_O_TRUNC | (FUSE_NO_OPEN_SUPPORT if no_open else 0))
         if bool(neg & FUSE_NO_OPEN_SUPPORT) != bool(no_open): raise FuseError('no_open negotiation failed')
         self.nodes = []
@@ -225,15 +226,16 @@ def run_check(tier, seed):
     if not ok:
         broken.append({'kind': 'harness-build', 'log': out[-3000:]})
         return finish(ev, PROP, findings, broken)
-    nh = 30 if quick else 150
+    nh = 30 if quick else 400
     evals = 0; nontriv = set(); samples = []; exprs = []; meta = []
     base = os.path.join(SCRATCH, 'c18-tree')
     try:
         evals += probe_refusal_closes_fd(bindir, base, findings)
         for no_open in (0, 1):
             # ---- sealed export S, unsealed reference U in lockstep
-            for hi in range(nh):
-                S = Inst(bindir, base + '-s', 1, no_open); U = Inst(bindir, base + '-u', 0, no_open)
+            for hi in range(nh + max(6, nh // 5)):
+                kind = 'passthrough' if hi < nh else 'vfs'          # the last histories go through a Vfs with the export mounted at /
+                S = Inst(bindir, base + '-s', 1, no_open, kind); U = Inst(bindir, base + '-u', 0, no_open, kind)
                 try:
                     H = gen_history(rng, 45, no_open)
                     cases = []
@@ -258,7 +260,7 @@ def run_check(tier, seed):
                         after = S.sizes(); evals += 1
                         if r['op'] == 'write' and e in (EPERM, EINVAL): dead.add(r['slot'])
                         if r['op'] in ('open', 'create') and e == 0 and not (r['op'] == 'create' and no_open): dead.discard(r['slot'])
-                        cfgd = {'seal_size': True, 'no_open': bool(no_open)}
+                        cfgd = {'seal_size': True, 'no_open': bool(no_open), 'kind': kind}
                         inp = {'config': cfgd, 'history_index': hi, 'request': dict(r), 'sizes_before': before, 'sizes_after': after, 'errno': e,
                                'prefix': [coq_req(x) for x, _, _ in cases][-12:]}
                         if e in ('panic', 'noreply'):
@@ -285,7 +287,7 @@ def run_check(tier, seed):
                     exprs.append('(hist_check tie_host (mk_cfg true %s) %d (init_state [%s]) [%s])' % (
                         'true' if no_open else 'false', len(SIZES0), '; '.join(map(str, SIZES0)),
                         ';\n '.join('(%s, %d, [%s])' % (coq_req(r), e, '; '.join(map(str, a))) for r, e, a in cases)))
-                    meta.append({'config': {'seal_size': True, 'no_open': bool(no_open)}, 'requests': [coq_req(r) for r, _, _ in cases], 'errnos': [e for _, e, _ in cases], 'sizes': [a for _, _, a in cases]})
+                    meta.append({'config': {'seal_size': True, 'no_open': bool(no_open), 'kind': kind}, 'requests': [coq_req(r) for r, _, _ in cases], 'errnos': [e for _, e, _ in cases], 'sizes': [a for _, _, a in cases]})
                     if len(samples) < 3: samples.append({'config': {'seal_size': True, 'no_open': bool(no_open)}, 'first_requests': [(coq_req(r), e, a) for r, e, a in cases[:4]]})
                 finally:
                     S.close(); U.close()
